@@ -64,6 +64,15 @@ def judge(ctx, eng, text, o, label, ident, comments=False):
     b = eng.PP(**o).pprint(copy.deepcopy(d1))
     if a != b:
         res.violation("same-input-different-text", dict(case, t1=t1[:3000]), _first_text_diff(a, b), None)
+    if not o["separate_complex_types"]:
+        # the very same dictionary object printed twice, then compared with a fresh load of the same text
+        same = copy.deepcopy(d1)
+        c1 = eng.printer(**o).pprint(same)
+        c2 = eng.printer(**o).pprint(same)
+        if c1 != c2:
+            res.violation("same-dictionary-object-printed-twice-differs", dict(case, t1=t1[:3000]), _first_text_diff(c1, c2), None)
+        if core.plain(same) != core.plain(d1):
+            res.violation("dictionary-differs-from-a-fresh-load-after-dumps", dict(case, t1=t1[:3000]), core.first_diff(core.plain(d1), core.plain(same)), None)
     try:
         t2 = a
         d2 = eng.loads(t2, include_comments=comments)
